@@ -1,13 +1,27 @@
 (** C19 -- Parameter extraction matches the RS274 / Marlin reading.
-    PARTIAL: proved for all inputs: the number reader (sign, digits, optional fraction; a trailing point and an
-    exponent letter are not part of the number) and that the handlers act on the LAST value given for each letter.
-    The statement "for every word list and every legal spelling the tokenizer yields exactly the word list" is decided on
-    the implementation and on the model by the exhaustive + random `words` stream of this check; its Coq proof over the
-    fuelled loop is not finished (DESIGN.md, C19). *)
+    Proved for ALL word lists and ALL legal spellings without exponent (blanks before the letter and between letter and
+    number, either letter case, optional sign, integer / decimal / leading-point / trailing-point numbers, valueless flags,
+    repeated letters, words glued together such as "X1Y2" or "X1E5"): the tokenizer (Model/Words.v, the model of
+    GcodeParser.parameterItems, tied to the code by the exhaustive `words` stream) yields exactly the reference letter /
+    number-text pairs in order, each number text denotes exactly the value of its digits, and the handlers act on the LAST
+    value given for each letter (valueless occurrences give no value, wherever they stand).
+    Modelled, not proved: Python's `re` engine and float() (the model's tokenizer is compared with them on every run). *)
 From Coq Require Import QArith NArith String Ascii List Bool.
-From ER Require Import Base.Num Model.Lexer Model.Words Model.Geometry Model.Axis Model.Filter Proofs.WordsProps.
+From ER Require Import Base.Num Model.Lexer Model.Words Model.Geometry Model.Axis Model.Filter Proofs.WordsProps Proofs.Spelling.
 Import ListNotations.
 Local Open Scope string_scope.
+
+(** the tokenizer against the reference reading: every word list, every legal spelling *)
+Theorem C19_tokenizer_all_spellings : forall ws trail, Forall word_ok ws -> fst (items (spell ws trail)) = reference ws.
+Proof. exact tokenizer_reads_all_spellings. Qed.
+(** each number text denotes exactly the reference value *)
+Theorem C19_spelling_value : forall x txt v, num_ok x -> read_text x = Some txt -> read_value x = Some v -> number_value txt == v.
+Proof. exact spelling_value. Qed.
+(** non-vacuity: a concrete mixed spelling meets the premises and reads as expected *)
+Theorem C19_witness :
+  let ws := [mkW 2 "x" 0 (NDec SMinus "1" "5"); mkW 0 "Y" 0 (NDec SNone "" "5"); mkW 1 "e" 0 (NTrail SNone "5"); mkW 1 "z" 0 NFlag; mkW 1 "S" 0 NFlag] in
+  spell ws 2 = "  x-1.5Y.5 e5. z S  " /\ fst (items (spell ws 2)) = [("X"%char, Some "-1.5"); ("Y"%char, Some ".5"); ("E"%char, Some "5"); ("Z"%char, None); ("S"%char, None)].
+Proof. exact spelling_witness. Qed.
 
 Theorem C19_last_wins : forall (T : Type) l (before after : list (witem T)) v,
   no_num l after -> word l (before ++ (l, MNum v) :: after) = Some v.
@@ -17,22 +31,25 @@ Proof. exact @word_absent. Qed.
 Theorem C19_valueless_ignored : forall (T : Type) l (a b : list (witem T)) k, word l (a ++ (k, MNone) :: b) = word l (a ++ b).
 Proof. exact @word_ignores_valueless. Qed.
 
-Theorem C19_partial_number_decimal : forall sg ip fp r,
+Theorem C19_number_decimal : forall sg ip fp r,
   (sg = "" \/ sg = "-" \/ sg = "+") -> all_digits ip -> all_digits fp -> ip <> "" -> fp <> "" -> stops r ->
   number (sg ++ ip ++ String "." fp ++ r) = Some (sg ++ ip ++ String "." fp, r).
 Proof. exact number_reads_decimal. Qed.
-Theorem C19_partial_number_integer : forall sg ip r,
+Theorem C19_number_integer : forall sg ip r,
   (sg = "" \/ sg = "-" \/ sg = "+") -> all_digits ip -> ip <> "" -> stops r -> number (sg ++ ip ++ r) = Some (sg ++ ip, r).
 Proof. exact number_reads_integer. Qed.
-Theorem C19_partial_trailing_point : forall sg ip r,
+Theorem C19_trailing_point : forall sg ip r,
   (sg = "" \/ sg = "-" \/ sg = "+") -> all_digits ip -> ip <> "" ->
   (match r with "" => True | String c _ => Lexer.is_digit c = false end) ->
   number (sg ++ ip ++ String "." r) = Some (sg ++ ip, String "." r).
 Proof. exact number_trailing_point. Qed.
 
+Print Assumptions C19_tokenizer_all_spellings.
+Print Assumptions C19_spelling_value.
+Print Assumptions C19_witness.
 Print Assumptions C19_last_wins.
 Print Assumptions C19_absent.
 Print Assumptions C19_valueless_ignored.
-Print Assumptions C19_partial_number_decimal.
-Print Assumptions C19_partial_number_integer.
-Print Assumptions C19_partial_trailing_point.
+Print Assumptions C19_number_decimal.
+Print Assumptions C19_number_integer.
+Print Assumptions C19_trailing_point.
